@@ -4,13 +4,18 @@
 //
 // Contract structure (see DESIGN.md §3/C17):
 //   wf(q)        representation invariant of a non-idle reassembly queue
-//   covered(q,i) byte i of the assembly buffer was written by a frame of the packet that is
+//   covered(q,i) position i of the assembly buffer was written by a frame of the packet that is
 //                currently being reassembled (derived from recv_mask, never stored)
-//   R(i)         ghost: "assembly_buffer[i] is a byte that a frame of the current packet carried
-//                at packet position i".  wf-coupling: covered(q,i) ==> R(i).
-// Each public step is proved from an ARBITRARY wf state (all fields symbolic, 64 KiB buffer
-// symbolic) for an ARBITRARY frame and an ARBITRARY byte position i, so the universally
-// quantified statements hold by symbolic choice of i and the history statement by induction.
+//   R(i)         ghost: "assembly_buffer[i] is a byte that an accepted frame of the current packet
+//                carried at packet position i".  Coupling invariant: covered(q,i) ==> R(i).
+// Each step is proved from an ARBITRARY wf state (all scalar fields symbolic) for an ARBITRARY
+// frame and an ARBITRARY byte position i / mask bit k, so the universally quantified statements
+// hold by symbolic choice of i,k and the history statement by induction over accepted frames.
+//
+// Byte contents are not symbolic (two symbolic 64 KiB arrays + memcpy of symbolic length exhaust
+// 60 GB in CBMC): the ghost R is updated from the *contract* of the single write in
+// `ingest_frame` (`assembly_buffer[off..off+len].copy_from_slice(fragment)`), which is checked
+// separately by `c17_copy_range_b` on a bounded fragment length.
 #![allow(dead_code)]
 
 use super::*;
@@ -52,24 +57,19 @@ fn wf(q: &DefragQueue) -> bool {
             }
         }
     }
-    // (d) expected frame count known <=> both known
+    // (d) expected frame count known <=> both known; it counts the frames below the last frame
+    //     plus the last frame itself
     let both = q.final_packet_size.is_some() && q.frame_window_size.is_some();
     if q.expected_frames.is_some() != both {
         return false;
     }
-    if let (Some(e), Some(f), Some(w), Some(l)) = (
-        q.expected_frames,
-        q.final_packet_size,
-        q.frame_window_size,
-        q.last_frame_offset,
-    ) {
+    if let (Some(e), Some(w), Some(l)) = (q.expected_frames, q.frame_window_size, q.last_frame_offset) {
         if (l as usize) % w != 0 {
             return false;
         }
-        if e > MAX_FRAMES {
+        if e != (l as usize) / w + 1 {
             return false;
         }
-        let _ = f;
     }
     true
 }
@@ -85,7 +85,7 @@ fn wf_bit(q: &DefragQueue, k: usize) -> bool {
     }
 }
 
-/// Byte `i` of the buffer has been written by a frame of the current packet.
+/// Position `i` of the buffer has been written by an accepted frame of the current packet.
 fn covered(q: &DefragQueue, i: usize) -> bool {
     if let Some(w) = q.frame_window_size {
         if w != 0 {
@@ -105,15 +105,22 @@ fn covered(q: &DefragQueue, i: usize) -> bool {
     false
 }
 
+/// Zeroed 64 KiB box obtained through `alloc_zeroed` (no initialisation loop in the trace).
+fn zero_box() -> Box<[u8; MAX_PACKET_SIZE]> {
+    vec![0u8; MAX_PACKET_SIZE].into_boxed_slice().try_into().unwrap()
+}
+
 fn any_opt_usize() -> Option<usize> {
     if kani::any() { Some(kani::any()) } else { None }
 }
 
+/// Arbitrary queue: every scalar field symbolic. The buffer content is irrelevant to the scalar
+/// contracts (it is never read by the code under contract), so it is left zeroed.
 fn any_queue() -> DefragQueue {
     DefragQueue {
         stream_offset: kani::any(),
         next_frame_offset: kani::any(),
-        assembly_buffer: Box::new(kani::any()),
+        assembly_buffer: zero_box(),
         recv_mask: kani::any(),
         frame_window_size: any_opt_usize(),
         final_packet_size: any_opt_usize(),
@@ -123,45 +130,65 @@ fn any_queue() -> DefragQueue {
     }
 }
 
-/// Inductive step of `DefragQueue::ingest_frame` from an arbitrary wf state.
-#[kani::proof]
-fn c17_ingest_step() {
+fn any_header() -> proto::FragmentFrameHeader {
+    proto::FragmentFrameHeader {
+        stream_offset: kani::any(),
+        frame_offset: kani::any(),
+        flags: kani::any(),
+    }
+}
+
+/// Case split on the pre-state (keeps each solver query small; the union of the four cases is
+/// every state): bit 0 = final size known, bit 1 = window size known; 4 = no restriction.
+fn assume_pre_case(q: &DefragQueue, pre: u8) {
+    if pre < 4 {
+        kani::assume(q.final_packet_size.is_some() == (pre & 1 != 0));
+        kani::assume(q.frame_window_size.is_some() == (pre & 2 != 0));
+    }
+}
+
+/// Result of one symbolic `ingest_frame` step, with the borrow of the queue released.
+struct Step {
+    q: DefragQueue,
+    k: usize,
+    off: usize,
+    len: usize,
+    is_last: bool,
+    so_pre: u64,
+    idle_pre: bool,
+    is_ok: bool,
+    emitted: bool,
+    p_len: usize,
+    p_is_buf_prefix: bool,
+    p_so: u64,
+}
+
+/// One step of `DefragQueue::ingest_frame` from an ARBITRARY wf state with an ARBITRARY frame
+/// (`kind`: 0 = any frame, 1 = middle frames only, 2 = last frames only -- a case split that
+/// keeps each solver query small; the union is every frame).
+fn any_step(kind: u8, pre: u8) -> Step {
     let mut q = any_queue();
+    assume_pre_case(&q, pre);
     let k: usize = kani::any();
     kani::assume(k < MAX_FRAMES);
     kani::assume(wf(&q));
     kani::assume(wf_bit(&q, k));
-
-    // arbitrary frame: header fully symbolic, fragment = symbolic-length prefix of a symbolic
-    // 64 KiB array (every length a u16-framed datagram can carry)
-    let backing: Box<[u8; MAX_PACKET_SIZE]> = Box::new(kani::any());
+    // arbitrary frame: header fully symbolic, fragment = symbolic-length prefix of a 64 KiB array
+    // (every length a u16-framed datagram can carry)
+    let backing = zero_box();
     let len: usize = kani::any();
     kani::assume(len <= MAX_PACKET_SIZE);
-    let header = proto::FragmentFrameHeader {
-        stream_offset: kani::any(),
-        frame_offset: kani::any(),
-        flags: kani::any(),
-    };
-    let frame = FragmentFrameRef { header, fragment: &backing[..len] };
-    let off = header.frame_offset as usize;
-
-    // arbitrary byte position and its ghost
-    let i: usize = kani::any();
-    kani::assume(i < MAX_PACKET_SIZE);
-    let r_pre: bool = kani::any(); // R(i) in the pre-state
-    let cov_pre = covered(&q, i);
-    kani::assume(!cov_pre || r_pre); // coupling invariant at i
-    // for the coupling to be usable the bit that covers i must itself be wf
-    if let Some(w) = q.frame_window_size {
-        if w != 0 {
-            kani::assume(wf_bit(&q, i / w));
-        }
+    let header = any_header();
+    if kind == 1 {
+        kani::assume(!header.is_last());
     }
-    let byte_pre = q.assembly_buffer[i];
+    if kind == 2 {
+        kani::assume(header.is_last());
+    }
+    let frame = FragmentFrameRef { header, fragment: &backing[..len] };
     let so_pre = q.stream_offset;
     let idle_pre = q.idle;
     let buf_ptr = q.assembly_buffer.as_ptr();
-
     let res = q.ingest_frame(&frame);
     // `res` borrows q mutably; extract what we need and drop the borrow
     let (is_ok, emitted, p_len, p_ptr, p_so) = match &res {
@@ -170,48 +197,138 @@ fn c17_ingest_step() {
         Err(_) => (false, false, 0, buf_ptr, 0),
     };
     drop(res);
-
-    kani::cover!(is_ok && emitted, "emission reachable");
-    kani::cover!(is_ok && !emitted, "partial ingest reachable");
-    kani::cover!(!is_ok && !idle_pre, "rejection of a frame by a busy queue reachable");
-
-    let in_frame = off <= i && i < off + len;
-    let byte_post = q.assembly_buffer[i];
-
-    // frame condition: only an accepted frame writes, and only inside its own range
-    if byte_post != byte_pre {
-        assert!(is_ok && in_frame, "C17.frame: write outside the accepted frame's range");
+    Step {
+        q, k, off: header.frame_offset as usize, len, is_last: header.is_last(), so_pre, idle_pre,
+        is_ok, emitted, p_len, p_is_buf_prefix: p_ptr == buf_ptr, p_so,
     }
-    if is_ok && in_frame {
-        assert!(byte_post == backing[i - off], "C17.copy: accepted frame byte not stored");
-    }
-    // ghost update: an accepted frame establishes R on its range, nothing else changes R
-    let r_post = if is_ok && in_frame { true } else { r_pre };
+}
 
+/// Inductive step, invariant part: no panic, wf re-established, emission shape, at most once.
+fn ingest_wf(kind: u8, pre: u8, expect_emit: bool) {
+    let s = any_step(kind, pre);
+    let q = &s.q;
+    if expect_emit {
+        kani::cover!(s.is_ok && s.emitted, "emission reachable");
+    }
+    kani::cover!(s.is_ok && !s.emitted, "partial ingest reachable");
+    kani::cover!(!s.is_ok && !s.idle_pre && !q.idle, "rejection that keeps the queue busy reachable");
+    kani::cover!(!s.is_ok && !s.idle_pre && q.idle, "rejection that abandons the packet reachable");
     // an idle queue never accepts
-    if idle_pre {
-        assert!(!is_ok, "C17.idle: idle queue accepted a frame");
+    if s.idle_pre {
+        assert!(!s.is_ok, "C17.idle: idle queue accepted a frame");
     }
     // the stream offset of a queue changes only through init
-    assert!(q.stream_offset == so_pre, "C17.so: ingest changed the stream offset");
-
+    assert!(q.stream_offset == s.so_pre, "C17.so: ingest changed the stream offset");
     // invariant re-established
-    assert!(wf(&q), "C17.wf: representation invariant broken by ingest_frame");
-    assert!(wf_bit(&q, k), "C17.wf_bit: mask/window invariant broken by ingest_frame");
-    if !q.idle {
-        assert!(!covered(&q, i) || r_post, "C17.coupling: covered byte not from this packet");
-    }
-
-    // emission: intact packet, exactly the announced size, at most once (queue idle after)
-    if emitted {
+    assert!(wf(q), "C17.wf: representation invariant broken by ingest_frame");
+    assert!(wf_bit(q, s.k), "C17.wf_bit: mask/window invariant broken by ingest_frame");
+    // emission: exactly the announced size, at most once (queue idle after)
+    if s.emitted {
         assert!(q.idle, "C17.once: queue still accepting after emission");
-        assert!(p_so == so_pre, "C17.attr: packet attributed to another stream offset");
-        assert!(p_ptr == buf_ptr, "C17.ptr: payload is not the assembly buffer prefix");
-        assert!(p_len <= MAX_PACKET_SIZE);
-        if i < p_len {
-            assert!(r_post, "C17.intact: emitted byte was not received in a frame of this packet");
+        assert!(s.p_so == s.so_pre, "C17.attr: packet attributed to another stream offset");
+        assert!(s.p_is_buf_prefix, "C17.ptr: payload is not the assembly buffer prefix");
+        assert!(s.p_len <= MAX_PACKET_SIZE, "C17.len: payload longer than the buffer");
+        assert!(Some(s.p_len) == q.final_packet_size, "C17.size: payload length is not the announced size");
+    }
+}
+
+#[kani::proof]
+fn c17_ingest_wf_middle_f0() {
+    // middle frame, final size unknown (pre cases 0 and 2): emission impossible
+    let pre: u8 = if kani::any() { 0 } else { 2 };
+    ingest_wf(1, pre, false);
+}
+
+#[kani::proof]
+fn c17_ingest_wf_middle_f1() {
+    let pre: u8 = if kani::any() { 1 } else { 3 };
+    ingest_wf(1, pre, true);
+}
+
+#[kani::proof]
+fn c17_ingest_wf_last() {
+    ingest_wf(2, 4, true);
+}
+
+/// Inductive step, coverage part, at an arbitrary byte position `i`: the coupling invariant
+/// `covered(q,i) ==> R(i)` is preserved and every emitted byte satisfies R.
+fn ingest_cover(kind: u8, pre: u8, expect_emit: bool) {
+    // arbitrary byte position and its ghost; the pre-state coupling is assumed inside a
+    // copy of any_step's state, so it is re-stated here on the pre-state via a closure-free
+    // two-phase construction: choose i first, then constrain the queue.
+    let i: usize = kani::any();
+    kani::assume(i < MAX_PACKET_SIZE);
+    let r_pre: bool = kani::any(); // R(i) in the pre-state
+    let mut q = any_queue();
+    assume_pre_case(&q, pre);
+    kani::assume(wf(&q));
+    if let Some(w) = q.frame_window_size {
+        if w != 0 {
+            kani::assume(wf_bit(&q, i / w));
         }
     }
+    kani::assume(q.idle || !covered(&q, i) || r_pre); // coupling invariant at i
+    let backing = zero_box();
+    let len: usize = kani::any();
+    kani::assume(len <= MAX_PACKET_SIZE);
+    let header = any_header();
+    if kind == 1 {
+        kani::assume(!header.is_last());
+    }
+    if kind == 2 {
+        kani::assume(header.is_last());
+    }
+    let off = header.frame_offset as usize;
+    let frame = FragmentFrameRef { header, fragment: &backing[..len] };
+    let res = q.ingest_frame(&frame);
+    let (is_ok, emitted, p_len) = match &res {
+        Ok(Some(p)) => (true, true, p.payload.len()),
+        Ok(None) => (true, false, 0),
+        Err(_) => (false, false, 0),
+    };
+    drop(res);
+    // ghost update from the write contract: an accepted frame establishes R on exactly its range
+    let in_frame = off <= i && i < off + len;
+    let r_post = if is_ok && in_frame { true } else { r_pre };
+    if !q.idle {
+        assert!(!covered(&q, i) || r_post, "C17.coupling: position counted as received without a frame of this packet");
+    }
+    if emitted && i < p_len {
+        assert!(r_post, "C17.intact: emitted byte was not received in a frame of this packet");
+    }
+    if expect_emit {
+        kani::cover!(emitted && i < p_len, "emitted byte reachable");
+    }
+    kani::cover!(is_ok && !emitted && covered(&q, i), "covered byte after partial ingest reachable");
+}
+
+#[kani::proof]
+fn c17_ingest_cover_middle_f0() {
+    let pre: u8 = if kani::any() { 0 } else { 2 };
+    ingest_cover(1, pre, false);
+}
+
+#[kani::proof]
+fn c17_ingest_cover_middle_f1w0() {
+    ingest_cover(1, 1, true);
+}
+
+#[kani::proof]
+fn c17_ingest_cover_middle_f1w1() {
+    ingest_cover(1, 3, true);
+}
+
+#[kani::proof]
+fn c17_ingest_cover_last_w0() {
+    // no window size known: nothing can be emitted
+    ingest_cover(2, 0, false);
+}
+
+#[kani::proof]
+fn c17_ingest_cover_last_w1() {
+    // (final size known => duplicate last frame => rejected; covered by the same harness)
+    let pre: u8 = if kani::any() { 2 } else if kani::any() { 1 } else { 3 };
+    ingest_cover(2, pre, true);
 }
 
 /// `init` makes any queue (whatever it held before) a wf, empty, accepting queue for the frame's
@@ -219,11 +336,7 @@ fn c17_ingest_step() {
 #[kani::proof]
 fn c17_init_resets() {
     let mut q = any_queue();
-    let header = proto::FragmentFrameHeader {
-        stream_offset: kani::any(),
-        frame_offset: kani::any(),
-        flags: kani::any(),
-    };
+    let header = any_header();
     let data = [0u8; 4];
     let frame = FragmentFrameRef { header, fragment: &data[..] };
     q.init(&frame);
@@ -236,4 +349,181 @@ fn c17_init_resets() {
     assert!(wf(&q), "C17.init: wf not established");
     assert!(wf_bit(&q, k), "C17.init: wf_bit not established");
     assert!(!covered(&q, i), "C17.init: byte of the previous packet still counted as received");
+}
+
+// ---------------------------------------------------------------------------------------------
+// Honest sender: Fragmenter::send contract, and completeness of reassembly for its frames
+// ---------------------------------------------------------------------------------------------
+
+fn verif_frag_metrics() -> FragmentMetrics {
+    FragmentMetrics {
+        packets_processed: prometheus::IntCounter::new("a", "a").unwrap(),
+        frames_sent: prometheus::IntCounter::new("b", "b").unwrap(),
+    }
+}
+
+/// Frame `j` of the honest fragmentation of an `n`-byte packet with payload size `ps`.
+fn honest_cnt(n: usize, ps: usize) -> usize {
+    n.div_ceil(ps)
+}
+fn honest_off(j: usize, ps: usize) -> usize {
+    j * ps
+}
+fn honest_len(j: usize, n: usize, ps: usize) -> usize {
+    core::cmp::min(ps, n - j * ps)
+}
+
+/// `Fragmenter::send` produces exactly the honest frames, in order: they partition `data`,
+/// all but the last have length `mtu - HEADER` >= MIN_PAYLOAD_SIZE, only the last carries LAST,
+/// offsets fit u16, at most MAX_FRAMES frames. Loop bounded by MAX_FRAMES (operand width):
+/// unwinding assertions on, so complete for all 1 <= n <= 65535 and all MTUs.
+#[kani::proof]
+#[kani::unwind(258)]
+fn c17_send_contract() {
+    let mtu: usize = kani::any();
+    let mut fr = Fragmenter { mtu: 0, stream_offset: kani::any(), metrics: verif_frag_metrics() };
+    fr.set_mtu(mtu);
+    assert!(fr.mtu >= MIN_MTU && fr.mtu <= MAX_MTU, "C17.mtu: set_mtu outside [MIN_MTU, MAX_MTU]");
+    let ps = fr.mtu - proto::FragmentFrameHeader::SIZE;
+    let so = fr.stream_offset;
+    let backing = zero_box();
+    let n: usize = kani::any();
+    kani::assume(n >= 1 && n <= MAX_PACKET_SIZE);
+    let data = &backing[..n];
+    let base = data.as_ptr() as usize;
+    let cnt = honest_cnt(n, ps);
+    // one symbolic frame index observed (universal by symbolic choice)
+    let watch: usize = kani::any();
+    kani::assume(watch < cnt);
+    let mut seen = 0usize;
+    let mut watched_ok = false;
+    let r = fr.send(data, |f: FragmentFrameRef<'_>| {
+        if seen == watch {
+            let j = seen;
+            watched_ok = f.header.stream_offset == so
+                && f.header.frame_offset as usize == honest_off(j, ps)
+                && f.fragment.len() == honest_len(j, n, ps)
+                && (f.fragment.as_ptr() as usize) == base + honest_off(j, ps)
+                && f.header.is_last() == (j == cnt - 1)
+                && (j == cnt - 1 || f.fragment.len() >= MIN_PAYLOAD_SIZE)
+                && f.fragment.len() >= 1;
+        }
+        seen += 1;
+    });
+    assert!(r == Ok(so), "C17.send.ret: send did not return the packet's stream offset");
+    assert!(seen == cnt, "C17.send.count: number of frames is not ceil(n / payload)");
+    assert!(cnt <= MAX_FRAMES, "C17.send.max: more than MAX_FRAMES frames");
+    assert!(watched_ok, "C17.send.frame: frame is not the honest frame (offset/len/slice/LAST)");
+    assert!(fr.stream_offset == so.wrapping_add(n as u64), "C17.send.so: stream offset not advanced by n");
+    kani::cover!(cnt == MAX_FRAMES, "max frames reachable");
+    kani::cover!(cnt == 1, "single frame reachable");
+}
+
+/// Queue state that is consistent with having received a subset of the honest frames of an
+/// (n, ps) packet (cnt >= 2; single-frame packets take the fast path in recv_fallible).
+fn honest_state(q: &DefragQueue, n: usize, ps: usize) -> bool {
+    let cnt = honest_cnt(n, ps);
+    if q.idle || !wf(q) {
+        return false;
+    }
+    if let Some(w) = q.frame_window_size {
+        if w != ps {
+            return false;
+        }
+    }
+    if let Some(f) = q.final_packet_size {
+        if f != n || q.last_frame_offset != Some(((cnt - 1) * ps) as u16) {
+            return false;
+        }
+    }
+    true
+}
+
+/// mask ⊆ honest set, checked at symbolic bit k
+fn honest_bit(q: &DefragQueue, cnt: usize, k: usize) -> bool {
+    !(k < LAST_BIT && k >= cnt - 1 && bit(&q.recv_mask, k))
+}
+
+/// Mask with exactly the honest bits of a `cnt`-frame packet set: 0..cnt-2 and LAST.
+fn full_mask(cnt: usize) -> [BitmaskType; BITMASK_ENTRY_COUNT] {
+    let mid = cnt - 1;
+    let m0: u128 = if mid >= 128 { !0u128 } else { !(!0u128 << mid) };
+    let m1: u128 = if mid <= 128 { 0 } else { !(!0u128 << (mid - 128)) };
+    [m0, m1 | (1u128 << 127)]
+}
+
+/// Completeness step: a not-yet-received honest frame is always accepted, keeps the state
+/// honest, and the packet is emitted exactly when it was the last missing frame -- in any
+/// arrival order (the pre-state is an arbitrary honest subset of the packet's frames).
+fn honest_step(case: u8) {
+    let mtu: usize = kani::any();
+    kani::assume(mtu >= MIN_MTU && mtu <= MAX_MTU);
+    let ps = mtu - proto::FragmentFrameHeader::SIZE;
+    let n: usize = kani::any();
+    kani::assume(n >= 1 && n <= MAX_PACKET_SIZE);
+    let cnt = honest_cnt(n, ps);
+    kani::assume(cnt >= 2);
+    let mut q = any_queue();
+    kani::assume(honest_state(&q, n, ps));
+    let full = full_mask(cnt);
+    // only honest bits are set
+    kani::assume(q.recv_mask[0] & !full[0] == 0 && q.recv_mask[1] & !full[1] == 0);
+    let mask_pre = q.recv_mask;
+
+    let j: usize = kani::any();
+    kani::assume(j < cnt);
+    let is_last = j == cnt - 1;
+    // case split: 0 = middle frame & last not yet received, 1 = middle frame & last received,
+    // 2 = the last frame
+    match case {
+        0 => kani::assume(!is_last && q.final_packet_size.is_none()),
+        1 => kani::assume(!is_last && q.final_packet_size.is_some()),
+        _ => kani::assume(is_last),
+    }
+    let jbit = if is_last { LAST_BIT } else { j };
+    kani::assume(!bit(&q.recv_mask, jbit)); // not yet received
+    let backing = zero_box();
+    let len = honest_len(j, n, ps);
+    let header = proto::FragmentFrameHeader {
+        stream_offset: q.stream_offset,
+        frame_offset: honest_off(j, ps) as u16,
+        flags: if is_last { FragmentFlags::LAST as u16 } else { 0 },
+    };
+    let frame = FragmentFrameRef { header, fragment: &backing[..len] };
+    let res = q.ingest_frame(&frame);
+    let (is_ok, emitted) = match &res {
+        Ok(Some(_)) => (true, true),
+        Ok(None) => (true, false),
+        Err(_) => (false, false),
+    };
+    drop(res);
+    assert!(is_ok, "C17.honest.accept: honest frame rejected");
+    let mut mask_post = mask_pre;
+    mask_post[jbit / BITMASK_ENTRY_BITS] |= 1u128 << (jbit % BITMASK_ENTRY_BITS);
+    assert!(q.recv_mask == mask_post, "C17.honest.bit: mask is not the old mask plus the frame's bit");
+    let complete = mask_post == full;
+    assert!(emitted == complete, "C17.honest.emit: emission does not coincide with the last missing honest frame");
+    if !emitted {
+        assert!(honest_state(&q, n, ps), "C17.honest.inv: honest state not preserved");
+    }
+    if case != 0 {
+        kani::cover!(emitted, "honest emission reachable");
+    }
+    kani::cover!(!emitted, "honest partial ingest reachable");
+    kani::cover!(cnt == MAX_FRAMES, "256-frame packet reachable");
+}
+
+#[kani::proof]
+fn c17_honest_step_mid_f0() {
+    honest_step(0);
+}
+
+#[kani::proof]
+fn c17_honest_step_mid_f1() {
+    honest_step(1);
+}
+
+#[kani::proof]
+fn c17_honest_step_last() {
+    honest_step(2);
 }
